@@ -80,7 +80,7 @@ def run(chk, tier, replay):
         if r.violated:
             raise common.InfraError(m + " self-check failed")
         chk.add_tlc(r)
-    hs = histories(chk, tier)
+    hs = histories(chk, tier) + wcommon.count_boundary_histories(chk, tier)
     cfgs = configs(tier)
     execs, meta, files, faults = wcommon.run_histories(chk, hs, cfgs, modes=(), with_file=True, determinism=True)
     seen = set()
